@@ -154,9 +154,10 @@ VMapping(e) ==
              mirror |-> e.mirror, from |-> e.from, to |-> e.to] IN
   IF \E j \in 1..Len(e.maps) : ~RangesOK(e.maps[j].ranges) THEN "skip:ranges"
   ELSE IF \E j \in 1..Len(e.q) : e.q[j].res.kind # "ok" THEN "bad:MappingRaised"
-  ELSE IF \E j \in 1..Len(e.q) : e.q[j].pos # MappingRes(mp, e.q[j].p, e.q[j].assoc).pos THEN "bad:MappingPos"
-  ELSE IF \E j \in 1..Len(e.q) : e.q[j].del # MappingRes(mp, e.q[j].p, e.q[j].assoc).del THEN "bad:MappingDelInfo"
-  ELSE IF \E j \in 1..Len(e.q) : e.q[j].simple # MappingRes(mp, e.q[j].p, e.q[j].assoc).pos THEN "bad:MappingMapVsMapResult"
+  \* mode: which of the two public calls was observed - "both", "result" (map_result) or "simple" (map)
+  ELSE IF \E j \in 1..Len(e.q) : e.q[j].mode # "simple" /\ e.q[j].pos # MappingRes(mp, e.q[j].p, e.q[j].assoc).pos THEN "bad:MappingPos"
+  ELSE IF \E j \in 1..Len(e.q) : e.q[j].mode # "simple" /\ e.q[j].del # MappingRes(mp, e.q[j].p, e.q[j].assoc).del THEN "bad:MappingDelInfo"
+  ELSE IF \E j \in 1..Len(e.q) : e.q[j].mode # "result" /\ e.q[j].simple # MappingRes(mp, e.q[j].p, e.q[j].assoc).pos THEN "bad:MappingMapVsMapResult"
   ELSE IF e.roundtrip /\ (\A j \in 1..Len(e.maps) : \A x \in 1..(Len(e.maps[j].ranges) - 1) :
                             e.maps[j].ranges[x][1] + e.maps[j].ranges[x][2] < e.maps[j].ranges[x + 1][1])
           /\ (\E j \in 1..Len(e.q) : e.q[j].pos # e.q[j].p) THEN "bad:MirrorRoundTrip"
